@@ -3,6 +3,7 @@ package fwsim
 import (
 	"fmt"
 	"os"
+	"strings"
 	"testing"
 
 	"verif/harness/internal/evid"
@@ -17,8 +18,16 @@ import (
 type ntRule func(s Stats) (bool, []string)
 
 func execFor(t *testing.T, prop string, nt ntRule) func(Case) evid.Result {
+	return execWith(t, prop, nt, Execute)
+}
+
+func execFullFor(t *testing.T, prop string, nt ntRule) func(Case) evid.Result {
+	return execWith(t, prop, nt, ExecuteFull)
+}
+
+func execWith(t *testing.T, prop string, nt ntRule, run func(*testing.T, Case) Outcome) func(Case) evid.Result {
 	return func(c Case) (res evid.Result) {
-		out := Execute(t, c)
+		out := run(t, c)
 		if out.V != nil {
 			if out.V.Prop == prop || os.Getenv("VERIF_ANYPROP") == "1" {
 				res.Err = fmt.Errorf("%s (at op #%d, +%dms)", out.V.Msg, out.AtOp, out.Model.Now()/ms)
@@ -27,8 +36,13 @@ func execFor(t *testing.T, prop string, nt ntRule) func(Case) evid.Result {
 			res.Classes = append(res.Classes, "aborted-by-other-property-"+out.V.Prop)
 			return res
 		}
-		if out.Tainted != "" {
+		if strings.HasPrefix(out.Tainted, "known finding") {
+			res.Classes = append(res.Classes, "excluded: "+out.Tainted)
+		} else if out.Tainted != "" {
 			res.Classes = append(res.Classes, "stopped-at-ambiguity: "+out.Tainted)
+		}
+		if c.Cfg.Threads > 1 {
+			res.Classes = append(res.Classes, fmt.Sprintf("threads-%d", c.Cfg.Threads))
 		}
 		var cl []string
 		res.NonTrivial, cl = nt(out.Model.St)
@@ -140,4 +154,37 @@ func TestC07EndToEndReplay(t *testing.T) {
 }
 func TestC07EndToEndRegress(t *testing.T) {
 	evid.Regress(t, "C07", "TestC07EndToEnd", execFor(t, "C07", ntC07))
+}
+
+// ---------------------------------------------------------------------------- full stack units
+
+func full(p Profile) Profile { p.Full = true; p.Name += "Full"; return p }
+
+const fullDomain = "the same histories and reference model, but through the full stack: packets enter and leave as NDNLPv2 frames through real link services over in-memory transports, are dispatched by the link service to 1..4 real forwarding threads (name hash / PIT-token thread id) and observed as link-layer frames (independent LpPacket parser). "
+
+func TestC01Full(t *testing.T) {
+	rec := evid.New("C01", "TestC01Full", fullDomain+"Non-trivial as TestC01Delivery")
+	evid.Check(t, rec, genCaseFor(full(ProfC01)), execFullFor(t, "C01", ntC01))
+}
+func TestC01FullReplay(t *testing.T) { evid.Replay(t, "TestC01Full", execFullFor(t, "C01", ntC01)) }
+func TestC01FullRegress(t *testing.T) {
+	evid.Regress(t, "C01", "TestC01Full", execFullFor(t, "C01", ntC01))
+}
+
+func TestC02Full(t *testing.T) {
+	rec := evid.New("C02", "TestC02Full", fullDomain+"Non-trivial as TestC02Forwarding")
+	evid.Check(t, rec, genCaseFor(full(ProfC02)), execFullFor(t, "C02", ntC02))
+}
+func TestC02FullReplay(t *testing.T) { evid.Replay(t, "TestC02Full", execFullFor(t, "C02", ntC02)) }
+func TestC02FullRegress(t *testing.T) {
+	evid.Regress(t, "C02", "TestC02Full", execFullFor(t, "C02", ntC02))
+}
+
+func TestC09Full(t *testing.T) {
+	rec := evid.New("C09", "TestC09Full", fullDomain+"Non-trivial as TestC09Scope")
+	evid.Check(t, rec, genCaseFor(full(ProfC09)), execFullFor(t, "C09", ntC09))
+}
+func TestC09FullReplay(t *testing.T) { evid.Replay(t, "TestC09Full", execFullFor(t, "C09", ntC09)) }
+func TestC09FullRegress(t *testing.T) {
+	evid.Regress(t, "C09", "TestC09Full", execFullFor(t, "C09", ntC09))
 }
